@@ -11,7 +11,7 @@ RULE = (
     "Generated HyperbandScheduler(type in promotion|pasha|cost_promotion|rush_promotion, searcher=random) arguments (rung "
     "systems as in C03, 1..3 brackets shared/per-bracket, mode, with/without max_resource_attr), training scripts with and "
     "without checkpointing (restart re-reports old levels), metric and cost curves, and every tape-chosen interleaving of "
-    "suggest calls and reports of up to 4 concurrent trials through the protocol driver. Oracle: reference model from the "
+    "suggest calls and reports of up to 4 concurrent trials through the protocol driver; in a quarter of the cases running trials fail at tape-chosen points. Oracle: reference model from the "
     "doc-strings — every job has a target (first milestone / next rung level), PAUSE exactly at the target, STOP at max_t; every "
     "suggest outcome (resume X from rung r to the next level, or a new trial with its first milestone) must be among the outcomes "
     "the documented rule allows in the current state (top-down scan, best unpromoted entry, numpy.quantile cut-off or cumulative-cost "
